@@ -45,7 +45,8 @@ def _merge_stubs_docstring(obj: Object, stubs: Object) -> None:
 def _merge_stubs_overloads(obj: Module | Class, stubs: Module | Class) -> None:
     for function_name, overloads in list(stubs.overloads.items()):
         if overloads:
-            with suppress(KeyError):
+            # The runtime member can be an alias: assigning its overloads resolves it.
+            with suppress(KeyError, AliasResolutionError, CyclicAliasError):
                 obj.get_member(function_name).overloads = overloads
         del stubs.overloads[function_name]
 
